@@ -85,10 +85,7 @@ pub assume_specification<T, F: FnOnce(T) -> bool> [Option::<T>::is_some_and] (o:
 ;
 '''
 
-TEMPLATE = PRELUDE + r'''
-//@type byods_src - | EqRel | pubfields | noderive
-
-// ---------------- the subsumption forest ----------------
+FOREST = r'''// ---------------- the subsumption forest ----------------
 pub open spec fn rank_ok(subs: Map<usize, usize>, rk: spec_fn(usize) -> nat) -> bool {
     forall|i: usize| #[trigger] subs.contains_key(i) ==> rk(subs[i]) < rk(i)
 }
@@ -220,7 +217,12 @@ pub proof fn lemma_link_roots(subs: Map<usize, usize>, y: usize, x: usize, i: us
     }
 }
 
-//@fn byods_src - | merge_sets |
+'''
+
+TEMPLATE = PRELUDE + r'''
+//@type byods_src - | EqRel | pubfields | noderive
+
+''' + FOREST + r'''//@fn byods_src - | merge_sets |
     requires obeys_key_model::<T>(), builds_valid_hashers::<S>(),
     ensures final(set1)@ == old(set1)@.union(set2@),
 //@ghost start
